@@ -1065,8 +1065,30 @@ def subsets(items):
         yield from itertools.combinations(items, r)
 
 
-def classify_config(text, extern, got):
-    for qs in subsets(PARSE_QUIRKS):
+def applicable_parse_quirks(text, prog):
+    """Only hypotheses the program can distinguish: the construct concerned occurs in it."""
+    ops = prog["ops"]
+    lines = text.splitlines()
+    out = []
+    if "*" in ops:
+        out.append("times-is-minus")
+    if any(k in ops for k in (".b", ".h", ".w")):
+        out.append("int-size-mask-halved")
+    if "defined" in ops:
+        out.append("defined-always-false")
+    if any(ln.count('"') >= 3 for ln in lines):
+        out.append("string-literal-greedy")
+    if any(ln.count("'") >= 3 for ln in lines):
+        out.append("char-literal-greedy")
+    if "&&" in ops or "||" in ops:
+        out.append("logical-op-returns-operand")
+    if ("unary-" in ops or "unary+" in ops) and any(k in ops for k in ("*", "/", "%")):
+        out.append("unary-binds-looser-than-multiplicative")
+    return out
+
+
+def classify_config(text, extern, got, prog):
+    for qs in subsets(applicable_parse_quirks(text, prog)):
         try:
             alt = norm_ref(bd_ref.parse(text, extern, quirks=qs))
         except bd_ref.BDError:
@@ -1124,7 +1146,7 @@ def judge_program(ctx, text, extern, *, meta=None, count_programs=True):
         reconcile_blobs(want, got)
     d = first_diff(want, got)
     if d is not None:
-        qs = classify_config(text, extern, got)
+        qs = classify_config(text, extern, got, prog)
         detail = dict(witness, differs_at=d[0], expected=d[1], spsdk=d[2])
         if qs:
             for q in qs:
@@ -1370,13 +1392,16 @@ def judge_cli(ctx, text, extern, label, meta):
     diffs = diff_commands(expected, sections, exact_load_length=False)
     if diffs:
         kinds = {c["kind"] for s in expected for c in s["commands"]}
-        applicable = [q for q in CMD_QUIRKS if (q == "fill-range-length-ignored" and "fill" in kinds)
-                      or (q == "blob-as-le-word" and kinds & {"load", "encrypt"})
-                      or (q == "fuse-blob-by-magnitude" and "prog" in kinds)]
+        applicable = applicable_parse_quirks(text, prog) + [
+            q for q in CMD_QUIRKS if (q == "fill-range-length-ignored" and "fill" in kinds)
+            or (q == "blob-as-le-word" and kinds & {"load", "encrypt"})
+            or (q == "fuse-blob-by-magnitude" and "prog" in kinds)]
         qs = None
-        for cand in subsets(applicable):
+        for cand in itertools.islice(subsets(applicable), 300):
             try:
-                alt = bd_ref.commands(prog, read_file, quirks=cand)
+                pq = [q for q in cand if q in PARSE_QUIRKS]
+                alt_prog = bd_ref.parse(text, extern, quirks=pq) if pq else prog
+                alt = bd_ref.commands(alt_prog, read_file, quirks=[q for q in cand if q in CMD_QUIRKS])
             except bd_ref.BDError:
                 continue
             if not diff_commands(alt, sections, exact_load_length=False):
